@@ -72,6 +72,7 @@ func funcKey(f *ssa.Function) string {
 }
 
 type inliner struct {
+	structsSplit int
 	cand         map[*ssa.Function]bool
 	touched      map[*ssa.Function]bool
 	sites        map[*ssa.Function]int // inlined call sites per helper
@@ -3296,10 +3297,26 @@ func (in *inliner) splitFuncStructs(f *ssa.Function) bool {
 		}
 		return st
 	}
+	// ... and, for a variable that does not escape (a result struct of an inlined helper:
+	// `type found struct { value reflect.Value; ok bool }`), any struct: read and written field by
+	// field or copied whole into another such variable, it is one variable per field
+	anyStruct := func(al *ssa.Alloc) *types.Struct {
+		if st := allFuncs(al.Type().(*types.Pointer).Elem()); st != nil {
+			return st
+		}
+		if al.Heap {
+			return nil
+		}
+		st, ok := al.Type().(*types.Pointer).Elem().Underlying().(*types.Struct)
+		if !ok || st.NumFields() == 0 || st.NumFields() > 8 {
+			return nil
+		}
+		return st
+	}
 	cand := map[*ssa.Alloc]bool{}
 	for _, b := range f.Blocks {
 		for _, x := range b.Instrs {
-			if al, ok := x.(*ssa.Alloc); ok && allFuncs(al.Type().(*types.Pointer).Elem()) != nil {
+			if al, ok := x.(*ssa.Alloc); ok && anyStruct(al) != nil {
 				cand[al] = true
 			}
 		}
@@ -3385,7 +3402,7 @@ func (in *inliner) splitFuncStructs(f *ssa.Function) bool {
 		b.Instrs = append(b.Instrs[:i:i], append([]ssa.Instruction{n}, b.Instrs[i:]...)...)
 	}
 	for _, al := range order {
-		st := allFuncs(al.Type().(*types.Pointer).Elem())
+		st := anyStruct(al)
 		for i := 0; i < st.NumFields(); i++ {
 			c := &ssa.Alloc{Comment: al.Comment + "." + st.Field(i).Name(), Heap: al.Heap}
 			ssa.XSetType(c, types.NewPointer(st.Field(i).Type()))
@@ -4064,6 +4081,27 @@ func inlineHelpers(tops []*ssa.Function) (dropped map[*ssa.Function]bool, notes 
 		}
 	}
 	in.finishTouched()
+	// a helper that answers with a small struct (`type found struct { value reflect.Value; ok bool }`):
+	// once inlined, the struct variables it went through are one variable per field
+	{
+		var fs []*ssa.Function
+		for f := range in.ever {
+			if len(f.Blocks) > 0 {
+				fs = append(fs, f)
+			}
+		}
+		sort.Slice(fs, func(i, j int) bool {
+			return fs[i].Pos() < fs[j].Pos() || (fs[i].Pos() == fs[j].Pos() && fs[i].Name() < fs[j].Name())
+		})
+		for _, f := range fs {
+			if in.splitFuncStructs(f) {
+				in.structsSplit++
+				in.foldFlagBranches(f)
+				in.finish(f)
+				delete(in.touched, f)
+			}
+		}
+	}
 	for _, f := range tops {
 		if len(f.Blocks) > 0 {
 			in.tablesToChains(f)
@@ -4362,6 +4400,57 @@ func (in *inliner) flagsUnderGuard(f *ssa.Function) {
 					}
 				}
 			}
+		}
+	}
+}
+
+// foldFlagBranches: after result structs were split into their fields, a branch on a field that
+// holds the same constant on every way to it, or that the straight line behind it decides, is folded;
+// a return site of the helper that several ways lead to is first copied per way in (step 2k).
+func (in *inliner) foldFlagBranches(f *ssa.Function) {
+	for round := 0; round < 40; round++ {
+		changed := false
+		for _, b := range append([]*ssa.BasicBlock(nil), f.Blocks...) {
+			if len(b.Instrs) == 0 {
+				continue
+			}
+			iff, isIf := b.Instrs[len(b.Instrs)-1].(*ssa.If)
+			if !isIf || len(b.Succs) != 2 || b.Succs[0] == b.Succs[1] {
+				continue
+			}
+			// only branches on a variable of the function (a flag), possibly negated
+			cond := iff.Cond
+			for {
+				u, ok := cond.(*ssa.UnOp)
+				if !ok || u.Op != token.NOT {
+					break
+				}
+				cond = u.X
+			}
+			ld, ok := cond.(*ssa.UnOp)
+			if !ok || ld.Op != token.MUL {
+				continue
+			}
+			if al, ok := ld.X.(*ssa.Alloc); !ok || al.Heap {
+				continue
+			}
+			n := len(b.Succs)
+			foldBranch(b)
+			if len(b.Succs) != n {
+				changed = true
+				continue
+			}
+			if len(b.Preds) >= 2 {
+				before := len(f.Blocks)
+				in.splitMergedReturnSite(f, b)
+				if len(f.Blocks) != before {
+					changed = true
+					break
+				}
+			}
+		}
+		if !changed {
+			break
 		}
 	}
 }
